@@ -117,6 +117,49 @@ struct Plan {
     label: String,
 }
 
+/// A few programs far beyond the small scope in size: many iterations and rows (counters and
+/// row numbers beyond 8 and 16 bits), 40 levels of nesting, long identifiers.
+fn large_cases(deadline: &Deadline) -> Stats {
+    let sigs = vec![Sig::inp("P0", 64, 0), Sig::inp("P1", 16, 0), Sig::out("Q", 16)];
+    let l = |n: i64| Entry::Lit(n, Radix::Dec);
+    let p = |e: Expr| Entry::Paren(e);
+    let long = "v".repeat(300);
+    let mut deep = vec![Stmt::Row(vec![p(name("k0")), p(name("k39")), Entry::X])];
+    for d in (0..40).rev() {
+        deep = vec![Stmt::Loop(format!("k{d}"), lit(if d % 13 == 0 { 2 } else { 1 }), deep)];
+    }
+    let progs: Vec<(&str, Vec<Stmt>)> = vec![
+        ("70000 iterations", vec![Stmt::Loop("i".into(), lit(70_000), vec![Stmt::Row(vec![p(name("i")), p(bin(BinOp::Shr, name("i"), lit(8))), Entry::X])]), Stmt::Row(vec![l(1), l(2), l(3)])]),
+        ("repeat(300) inside loop(i,300) with an accumulator", vec![Stmt::Let("acc".into(), lit(0)), Stmt::Loop("i".into(), lit(300), vec![Stmt::Let("acc".into(), bin(BinOp::Add, name("acc"), name("i"))), Stmt::Repeat(lit(3), vec![p(name("acc")), p(name("n")), Entry::X])])]),
+        ("while counting to 1000", vec![Stmt::Let("c".into(), lit(0)), Stmt::While(bin(BinOp::Lt, name("c"), lit(1000)), vec![Stmt::Let("c".into(), bin(BinOp::Add, name("c"), lit(1))), Stmt::Row(vec![p(name("c")), l(0), Entry::X])])]),
+        ("40 nested loops", deep),
+        ("identifiers of 300 characters", vec![Stmt::Let(long.clone(), lit(5)), Stmt::Loop(format!("{long}x"), lit(3), vec![Stmt::Row(vec![p(bin(BinOp::Add, name(&long), name(&format!("{long}x")))), l(0), Entry::X])])]),
+        ("2000 statements at top level", (0..2000).map(|j| if j % 2 == 0 { Stmt::Let("t".into(), lit(j)) } else { Stmt::Row(vec![p(name("t")), l(j % 7), Entry::X]) }).collect()),
+    ];
+    par_range("large-scale programs (sizes far beyond the enumerated scope)", progs.len() as u64, deadline, |idx, st| {
+        let (what, body) = &progs[idx as usize];
+        let prog = Program { header: vec!["P0".into(), "P1".into(), "Q".into()], body: body.clone() };
+        let text = text(&prog);
+        let script = vec![Step::Ans(vec![("Q".into(), V::Num(1))])];
+        let r = ref_run_fuel(&prog, &sigs, &script, 3_000_000, 300_000);
+        assert!(r.end == RefEnd::Done, "large case '{what}' does not finish in the reference: {:?}", r.end);
+        st.evals += 1;
+        st.nontrivial += 1;
+        st.witness("large_scale_program");
+        let mut opts = RunOpts::new(r.items.len() + 1);
+        opts.repeat_last = true;
+        opts.budget = 50_000_000;
+        let obs = run_dynamic(&text, &sigs, true, &script, &opts);
+        st.steps += obs.items.len() as u64;
+        if let Some((k, m)) = run_mismatch(&r, &obs, Proj::ROWS, None) {
+            let short: String = text.chars().take(600).collect();
+            st.violation(&format!("large scale: {}", classify(&m)), (10 << 56) + idx, format!("{what}\nprogram (first 600 characters):\n{short}\nfirst difference at {m} (item {k} of {})", r.items.len()), || {
+                json!({"kind": "dynamic", "text": text, "signals": sigs_json(&sigs), "driver_overrides_write_input": true, "script": crate::driver::script_json(&script), "max_next": (k + 2), "after_end": 0, "continue_after_error": false, "seed": 1, "repeat_last": true, "extra_known": [], "expected": ref_items_brief(&r).into_iter().skip(k.saturating_sub(1)).take(4).collect::<Vec<_>>(), "observed": obs_items_brief(&obs).into_iter().take(k + 3).collect::<Vec<_>>(), "mismatch": m})
+            });
+        }
+    })
+}
+
 /// The real test programs of the repository's .dig fixtures: parsed by the reference grammar,
 /// run by the reference interpreter, compared row by row with the subject. Sources are cut out
 /// of the XML by a plain text scan (independent of the subject's .dig loader); the signal list
@@ -312,6 +355,7 @@ pub fn run(id: &'static str, tier: Tier, seed: u64) -> i32 {
     let _ = Step::Fault(0);
     if !c18 {
         total.merge(fixtures(&deadline));
+        total.merge(large_cases(&deadline));
     }
     {
         // (C18: vars(); C01: the rows) when the caller carries on after an error item (a virtual
